@@ -30,7 +30,7 @@ var c09ReqHdrs = []map[string]string{{}, {"X-K": "v"}, {"X-K": "w"}, {"X-K": ""}
 var c09HdrSetsRespec = append(append([][]string{}, c09HdrSets...), []string{"X-K", "^v$", "Y-K", "^w$"},
 	// one header constrained twice, under two spellings of its name: both expressions gate the route
 	[]string{"x-k", "^v", "X-K", "w$"})
-var c09Paths = []string{"/s", "/o", "/o/t", "/o/u", "/d/v", "/e", "/e/v", "/zz", "/o/", "//s", "/d/v/w"}
+var c09Paths = []string{"/s", "/o", "/o/t", "/o/u", "/d/v", "/e", "/e/v", "/zz", "/o/", "//s", "/d/v/w", "/o/t/u"}
 var c09Methods = []string{"GET", "POST", "PUT"}
 
 const c09MaxRegs = 3
@@ -392,6 +392,8 @@ var c09Prefixes = [][]c09Op{
 	{{Kind: "reg", Route: "/s", API: "Get"}, {Kind: "reg", Route: "/d/{x}", API: "Get"}},
 	{{Kind: "reg", Route: "/o/?t", API: "Get"}, {Kind: "reg", Route: "/{m: **}", API: "Any"}},
 	{{Kind: "reg", Route: "/o/t", API: "Routes(GET;POST)"}, {Kind: "reg", Route: "/o/?{y}", API: "Get"}},
+	// two optional routes, the second one level below the first and named like its optional segment
+	{{Kind: "reg", Route: "/o/?t", API: "Get"}, {Kind: "reg", Route: "/o/t/?u", API: "Get"}},
 }
 
 // c09Respecify: "specifying constraints again replaces the previous set" over longer histories than the
